@@ -61,6 +61,7 @@ ObsInit ==
    cur |-> [c \in OC |-> NoPair],            \* identity the coordinator issued last
    ids |-> [c \in OC |-> {}],                \* member ids ever issued to the client
    fenced |-> [c \in OC |-> FALSE],          \* last join/sync answer was UNKNOWN_MEMBER_ID
+   hung |-> FALSE,                           \* the watchdog fired: the scenario is torn down by force afterwards
    bad |-> {}]
 
 \* the offset a claim has to start at: the committed one when it exists and is in range
@@ -179,6 +180,7 @@ OLeave(o, e) ==
 
 ObsStep(o, e) ==
   CASE e.ev = "reset" -> OReset(o, e)
+    [] o.hung /\ e.ev # "reset" -> [o EXCEPT !.bad = IF e.ev = "hang" THEN {"consume_hang"} ELSE {}]
     [] e.ev = "consume_call" -> OConsumeCall(o, e)
     [] e.ev = "consume_ret" -> OConsumeRet(o, e)
     [] e.ev = "cancel" -> [o EXCEPT !.cancelled[e.c] = TRUE, !.bad = {}]
@@ -197,7 +199,7 @@ ObsStep(o, e) ==
     [] e.ev = "commit" -> OCommit(o, e)
     [] e.ev = "leave" -> OLeave(o, e)
     [] e.ev = "meta_change" -> [o EXCEPT !.metaChanged = TRUE, !.bad = {}]
-    [] e.ev = "hang" -> [o EXCEPT !.bad = {"consume_hang"}]
+    [] e.ev = "hang" -> [o EXCEPT !.hung = TRUE, !.bad = {"consume_hang"}]
     [] e.ev = "panic" -> [o EXCEPT !.bad = {"consume_panic"}]
     [] OTHER -> [o EXCEPT !.bad = {}]
 
